@@ -24,7 +24,13 @@ func OpenBlocking(dir string, opts Options) (BlockingLog, error) {
 	if err != nil {
 		return nil, err
 	}
-	return WrapBlocking(l)
+	bl, err := WrapBlocking(l)
+	if err != nil {
+		// do not keep the log (and the directory lock) of an open that failed
+		_ = l.Close()
+		return nil, err
+	}
+	return bl, nil
 }
 
 // WrapBlocking wraps a [Log] with support for blocking consume
